@@ -17,10 +17,10 @@ func init() {
 			Explanation: "Decides the ABSENCE OF A FIXED CATALOGUE OF CRASH SHAPES on the module functions reachable (VTA call graph, library callbacks followed) from the network entry points (Node.processRPC, pull, fastForward, join, NetworkTransport.handleConn): " +
 				"C08.sink (every call to ecdsa.Verify is reached only with pub, pub.X, pub.Y, r, s tested non-nil), C08.parse (a dropped failure indicator of (*big.Int).SetString / keys.DecodeSignature never precedes a dereference or escape of the value), " +
 				"C08.const (no constant index / constant slice bound on a string or slice that is not guarded by a length test), C08.bounds (a wire-controlled integer reaches a slice bound only with an upper and a lower guard), " +
-				"C08.shape (a fast-forward response passes a shape validation — nil elements of Peers / PeerSets / Roots / Events, nil Core, Parents of length 2, nil signature map — before its contents are used), " +
+				"C08.range (the store API that receives wire-controlled integers unchecked — RollingIndex.Get / GetItem / Set, reached with SyncRequest.Known values and wire event indexes — indexes and slices its window only at positions PROVED within [0, len] from the guards on every path, by linear entailment (Fourier–Motzkin on the path's comparison literals), for arbitrary integer arguments), C08.shape (a fast-forward response passes a shape validation — nil elements of Peers / PeerSets / Roots / Events, nil Core, Parents of length 2, nil signature map — before its contents are used), " +
 				"C08.dispatch (unknown command bytes / types are answered with an error, nothing is dispatched undecoded), C08.respond (a join promise is removed right after it was answered; no defer inside loops of network-reachable code). " +
 				"NOT decided: general panic-freedom, resource exhaustion by oversized inputs, data races, 'never alters committed history' (covered structurally by C02.frozen, C07, C09, C12)."},
-		Rules: []ruleFunc{c08sink, c08parse, c08const, c08bounds, c08shape, c08dispatch, c08respond},
+		Rules: []ruleFunc{c08sink, c08parse, c08const, c08bounds, c08range, c08shape, c08dispatch, c08respond},
 	})
 }
 
@@ -971,4 +971,60 @@ func c08respond(p *Prog, r *Report) {
 		}
 	}
 	r.Check(len(bad) == 0, rule, "network-reachable:no-defer-in-loop", "-", "", fmt.Sprintf("%d network-reachable functions scanned", nf), "defer inside a loop (runs only at function exit, once per iteration accumulated): "+strings.Join(bad, ", "))
+}
+
+
+// C08.range: the audited store API. Wire integers (SyncRequest.Known values, WireBody indexes)
+// reach RollingIndex.Get / GetItem / Set without any check by the callers; these functions must
+// therefore be total: every dynamic index / slice bound on the window is proved in range.
+func c08range(p *Prog, r *Report) {
+	const rule = "C08.range"
+	r.Rule(rule, 3, "RollingIndex.Get/GetItem/Set: every dynamic index or slice bound on items is within [0,len] on every path, for arbitrary integer arguments (linear entailment from the path guards)")
+	n := 0
+	for _, m := range []string{"Get", "GetItem", "Set"} {
+		fn := p.Func(COMM, "RollingIndex", m)
+		if fn == nil {
+			r.Anchor(rule, "common.(*RollingIndex)."+m)
+			continue
+		}
+		k := 0
+		for _, b := range fn.Blocks {
+			for _, in := range b.Instrs {
+				switch x := in.(type) {
+				case *ssa.Slice:
+					if fv, _ := fieldOf(x.X); fv == nil || fv.Name() != "items" {
+						continue
+					}
+					for _, bnd := range []ssa.Value{x.Low, x.High} {
+						if bnd == nil {
+							continue
+						}
+						if _, isC := intConst(bnd); isC {
+							continue
+						}
+						n++
+						k++
+						ok, why := p.proveInRange(x, bnd, x.X, 0)
+						r.Check(ok, rule, fmt.Sprintf("RollingIndex.%s:slice-bound#%d", m, k), p.ipos(x), fnName(fn), "slice bound proved within [0, len(items)] ("+why+")",
+							"slice bound on the rolling window not proved in range: "+why+" — a wire-controlled index (e.g. a Known value below -1 in a sync request) slices out of range and the goroutine panics")
+					}
+				case *ssa.IndexAddr:
+					if fv, _ := fieldOf(x.X); fv == nil || fv.Name() != "items" {
+						continue
+					}
+					if _, isC := intConst(x.Index); isC {
+						continue
+					}
+					n++
+					k++
+					ok, why := p.proveInRange(x, x.Index, x.X, -1)
+					r.Check(ok, rule, fmt.Sprintf("RollingIndex.%s:index#%d", m, k), p.ipos(x), fnName(fn), "index proved within [0, len(items)) ("+why+")",
+						"index into the rolling window not proved in range: "+why)
+				}
+			}
+		}
+	}
+	if n == 0 {
+		r.Fail(rule, "RollingIndex:dynamic-indexes", "-", "", "no dynamic index on RollingIndex.items found")
+	}
 }
